@@ -30,6 +30,10 @@ def main():
         assert os.path.realpath(oqupy.__file__).startswith(
             os.path.realpath(repo)), (oqupy.__file__, repo)
     from vp.mon import c17_common as cc
+    if spec["variant"].get("foreign_version"):
+        # the file is written by another release of the library
+        import oqupy.process_tensor as _ptmod
+        _ptmod.__version__ = "0.4.0"
     inj = cc.Injector(spec["level"], spec["k"], spec["mode"], spec["status"])
     inj.install()
     cc.run_workload(spec["variant"], spec["file"])
